@@ -63,7 +63,9 @@ impl<R> Reader<R> {
         R: XmlSource<'i, B>,
         requires
             old(self).inv(),
+            // A-size: the input that is left is addressable and its end position is representable
             old(self).state.offset + old(self).reader.remaining().len() <= u64::MAX,
+            old(self).reader.remaining().len() <= usize::MAX,
         ensures
             final(self).inv(),
             final(self).reader.faults() >= old(self).reader.faults(),
@@ -81,6 +83,7 @@ impl<R> Reader<R> {
                 self.inv(),
                 self.reader.faults() == f0,
                 self.state.offset + self.reader.remaining().len() <= u64::MAX,
+                self.reader.remaining().len() <= usize::MAX,
                 self.state.config == pre.config,
                 forall|post: ReaderState, rem2: Seq<u8>, r: core::result::Result<Event<'i>, Error>, fault: bool|
                     #[trigger] event_post(self.state, self.reader.remaining(), post, rem2, r, fault) ==> event_post(pre, rem, post, rem2, r, fault),
@@ -245,6 +248,7 @@ impl<R> Reader<R> {
             old(self).state.wf(), old(self).state.offset >= 1,
             old(self).state.last_error_offset <= old(self).state.offset - 1,
             old(self).state.offset + old(self).reader.remaining().len() <= u64::MAX,
+            old(self).reader.remaining().len() <= usize::MAX,
         ensures
             final(self).reader.faults() >= old(self).reader.faults(),
             markup_post(old(self).state, old(self).reader.remaining(), final(self).state, final(self).reader.remaining(), r,
